@@ -3,7 +3,7 @@ Core B: histories.  The subscription trie reached by any list of operations
 (the driver's `modelStep`, i.e. exactly what the differential runs execute)
 holds, up to permutation, the entries of the abstract store reached by the
 specification's `step` - for operations whose topic argument has no empty
-level and no '$'-led level.  Helper lemmas only.
+level and does not begin with '$' (`good`).  Helper lemmas only.
 -/
 import Mqtt.Proofs.TopicsStore
 import Mqtt.Proofs.TopicsLevels
@@ -51,24 +51,36 @@ theorem validQos_iff (q : Nat) : validQos q = decide (q ≤ 2) := by
     have h2 : (q == 2) = false := by simp; omega
     simp [h0, h1, h2, h]
 
-theorem modelStep_sub (mt : MemTopics) (f : List UInt8) (q s : Nat) :
+theorem modelStep_sub (mt : MemTopics) (f : List UInt8) (q s : Nat) (hd : checkSys f = false) :
     (modelStep mt (.sub f q s)).1.sroot =
       if q ≤ 2 then mt.sroot.sinsertL (levels f).1 (levels f).2 s q else mt.sroot := by
-  unfold modelStep
-  simp only [MemTopics.subscribe, validQos_iff, SNode.sinsert]
+  simp only [modelStep, subscribe_of_not_sys _ _ _ _ _ hd, validQos_iff, SNode.sinsert]
   by_cases h : q ≤ 2
   · have h' : ¬ q > 2 := by omega
     simp only [h, decide_true, Bool.not_true, Bool.false_eq_true, ↓reduceIte, h']
     cases (levels f).2 <;> rfl
   · simp [h]
 
-theorem modelStep_unsub (mt : MemTopics) (f : List UInt8) (s : Nat) :
-    (modelStep mt (.unsub f s)).1.sroot = (mt.sroot.sremoveL (levels f).1 (levels f).2 (some s)).1 := by
-  simp [modelStep, MemTopics.unsubscribe, SNode.sremove]
+/-- a subscription to a topic beginning with '$' leaves the store alone -/
+theorem modelStep_sub_sys (mt : MemTopics) (f : List UInt8) (q s : Nat) (hd : checkSys f = true) :
+    (modelStep mt (.sub f q s)).1 = mt := by
+  simp only [modelStep, subscribe_of_sys _ _ _ _ _ hd]
 
-theorem modelStep_unsubAll (mt : MemTopics) (f : List UInt8) :
+theorem modelStep_unsub (mt : MemTopics) (f : List UInt8) (s : Nat) (hd : checkSys f = false) :
+    (modelStep mt (.unsub f s)).1.sroot = (mt.sroot.sremoveL (levels f).1 (levels f).2 (some s)).1 := by
+  simp [modelStep, unsubscribe_of_not_sys _ _ _ hd, SNode.sremove]
+
+theorem modelStep_unsub_sys (mt : MemTopics) (f : List UInt8) (s : Nat) (hd : checkSys f = true) :
+    (modelStep mt (.unsub f s)).1 = mt := by
+  simp [modelStep, unsubscribe_of_sys _ _ _ hd]
+
+theorem modelStep_unsubAll (mt : MemTopics) (f : List UInt8) (hd : checkSys f = false) :
     (modelStep mt (.unsubAll f)).1.sroot = (mt.sroot.sremoveL (levels f).1 (levels f).2 none).1 := by
-  simp [modelStep, MemTopics.unsubscribe, SNode.sremove]
+  simp [modelStep, unsubscribe_of_not_sys _ _ _ hd, SNode.sremove]
+
+theorem modelStep_unsubAll_sys (mt : MemTopics) (f : List UInt8) (hd : checkSys f = true) :
+    (modelStep mt (.unsubAll f)).1 = mt := by
+  simp [modelStep, unsubscribe_of_sys _ _ _ hd]
 
 theorem modelStep_subs (mt : MemTopics) (t : List UInt8) (q : Nat) :
     (modelStep mt (.subs t q)).1 = mt := by
@@ -80,7 +92,9 @@ theorem modelStep_retain (mt : MemTopics) (t : List UInt8) (q : Nat) (p : List U
     (modelStep mt (.retain t q p)).1.sroot = mt.sroot := by
   unfold modelStep
   simp only [MemTopics.retain]
-  split <;> rfl
+  split
+  · rfl
+  · split <;> rfl
 
 theorem modelStep_retained (mt : MemTopics) (f : List UInt8) :
     (modelStep mt (.retained f)).1 = mt := by
@@ -194,17 +208,25 @@ theorem filter_invalid_none (subs : List Sub) (f : List UInt8)
 
 theorem levels_valid (f : List UInt8) (hg : good f = true) (hv : validFilter f = true) :
     (levels f).1 = split f ∧ (levels f).2 = true := by
-  rw [(levels_spec f hg).1 hv]; exact ⟨rfl, rfl⟩
+  rw [(levels_spec f (good_noEmptyLevel f hg)).1 hv]; exact ⟨rfl, rfl⟩
 
 theorem levels_invalid (f : List UInt8) (hg : good f = true) (hv : validFilter f = false) :
-    (levels f).2 = false := (levels_spec f hg).2 hv
+    (levels f).2 = false := (levels_spec f (good_noEmptyLevel f hg)).2 hv
+
+theorem entryLevels_valid (f : List UInt8) (hg : good f = true) (hv : validFilter f = true) :
+    (entryLevels f).1 = split f ∧ (entryLevels f).2 = true := by
+  rw [entryLevels_good f hg]; exact levels_valid f hg hv
+
+theorem entryLevels_invalid (f : List UInt8) (hg : good f = true) (hv : validFilter f = false) :
+    (entryLevels f).2 = false := by
+  rw [entryLevels_good f hg]; exact levels_invalid f hg hv
 
 theorem step_inv (mt : MemTopics) (subs : List Sub) (op : Op) (hg : good (opTopic op) = true)
     (h : Inv mt.sroot subs) : Inv (modelStep mt op).1.sroot (specSubs subs op) := by
   cases op with
   | sub f q sub =>
     have hd : dollar f = false := good_not_dollar f hg
-    rw [modelStep_sub]
+    rw [modelStep_sub _ _ _ _ (good_checkSys f hg)]
     simp only [specSubs, hd, Bool.false_eq_true, ↓reduceIte]
     by_cases hq : q ≤ 2
     · have hq' : ¬ q > 2 := by omega
@@ -236,7 +258,7 @@ theorem step_inv (mt : MemTopics) (subs : List Sub) (op : Op) (hg : good (opTopi
       exact h
   | unsub f sub =>
     have hd : dollar f = false := good_not_dollar f hg
-    rw [modelStep_unsub]
+    rw [modelStep_unsub _ _ _ (good_checkSys f hg)]
     simp only [specSubs, hd, Bool.false_eq_true, ↓reduceIte]
     cases hv : validFilter f with
     | false =>
@@ -251,7 +273,7 @@ theorem step_inv (mt : MemTopics) (subs : List Sub) (op : Op) (hg : good (opTopi
       rw [absS_filter_some] at this
       exact this
   | unsubAll f =>
-    rw [modelStep_unsubAll]
+    rw [modelStep_unsubAll _ _ (good_checkSys f hg)]
     simp only [specSubs]
     cases hv : validFilter f with
     | false =>
@@ -289,6 +311,95 @@ theorem run_inv (ops : List Op) (hg : ∀ op ∈ ops, good (opTopic op) = true) 
   exact ⟨WF_empty, by simp [MemTopics.new, abs_empty, absS, Mqtt.Spec.TopicStore.empty],
     by simp [Mqtt.Spec.TopicStore.empty]⟩
 
+/-! ### histories that also contain topics beginning with '$'
+
+Operations on a topic beginning with '$' change neither side: the entry points
+turn them away (`checkSys`), the specification ignores them.  So the refinement
+holds over every history without empty levels; the abstract store never holds a
+filter beginning with '$'. -/
+
+theorem good_of (t : List UInt8) (h1 : noEmptyLevel t = true) (h2 : dollar t = false) : good t = true := by
+  simp [good, h1, h2]
+
+theorem step_inv_any (mt : MemTopics) (subs : List Sub) (op : Op) (hg : noEmptyLevel (opTopic op) = true)
+    (h : Inv mt.sroot subs) (hnd : ∀ e ∈ subs, dollar e.filter = false) :
+    Inv (modelStep mt op).1.sroot (specSubs subs op) ∧ ∀ e ∈ specSubs subs op, dollar e.filter = false := by
+  cases hd : dollar (opTopic op) with
+  | false =>
+    refine ⟨step_inv mt subs op (good_of _ hg hd) h, ?_⟩
+    cases op with
+    | sub f q sub =>
+      simp only [opTopic] at hd
+      simp only [specSubs, hd, Bool.false_eq_true, ↓reduceIte]
+      split
+      · exact hnd
+      · split
+        · exact hnd
+        · intro e he
+          simp only [List.mem_append, List.mem_filter, List.mem_singleton] at he
+          rcases he with he | rfl
+          · exact hnd e he.1
+          · exact hd
+    | unsub f sub =>
+      simp only [specSubs]
+      split
+      · exact hnd
+      · intro e he; exact hnd e (List.mem_filter.mp he).1
+    | unsubAll f => intro e he; exact hnd e (List.mem_filter.mp he).1
+    | subs t q => exact hnd
+    | retain t q p => exact hnd
+    | retained f => exact hnd
+  | true =>
+    have hc : checkSys (opTopic op) = true := hd
+    cases op with
+    | sub f q sub =>
+      simp only [opTopic] at hd hc
+      rw [modelStep_sub_sys _ _ _ _ hc]
+      simp only [specSubs, hd, ↓reduceIte]
+      exact ⟨h, hnd⟩
+    | unsub f sub =>
+      simp only [opTopic] at hd hc
+      rw [modelStep_unsub_sys _ _ _ hc]
+      simp only [specSubs, hd, ↓reduceIte]
+      exact ⟨h, hnd⟩
+    | unsubAll f =>
+      simp only [opTopic] at hd hc
+      rw [modelStep_unsubAll_sys _ _ hc]
+      have : subs.filter (fun e => !(e.filter == f)) = subs := by
+        rw [List.filter_eq_self]
+        intro e he
+        have : e.filter ≠ f := by intro x; rw [← x, hnd e he] at hd; exact absurd hd (by simp)
+        simp [this]
+      simp only [specSubs, this]
+      exact ⟨h, hnd⟩
+    | subs t q => rw [modelStep_subs]; exact ⟨h, hnd⟩
+    | retain t q p => rw [modelStep_retain]; exact ⟨h, hnd⟩
+    | retained f => rw [modelStep_retained]; exact ⟨h, hnd⟩
+
+theorem run_inv_any_aux (ops : List Op) :
+    ∀ (mt : MemTopics) (s : S), (∀ op ∈ ops, noEmptyLevel (opTopic op) = true) → Inv mt.sroot s.subs →
+      (∀ e ∈ s.subs, dollar e.filter = false) →
+      Inv (ops.foldl (fun mt op => (modelStep mt op).1) mt).sroot
+          (ops.foldl (fun s op => (step s op).1) s).subs ∧
+      ∀ e ∈ (ops.foldl (fun s op => (step s op).1) s).subs, dollar e.filter = false := by
+  induction ops with
+  | nil => intro mt s _ h hnd; exact ⟨h, hnd⟩
+  | cons op ops ih =>
+    intro mt s hg h hnd
+    simp only [List.foldl_cons]
+    obtain ⟨h1, h2⟩ := step_inv_any mt s.subs op (hg op (by simp)) h hnd
+    apply ih _ _ (fun o ho => hg o (by simp [ho]))
+    · rw [step_subs]; exact h1
+    · rw [step_subs]; exact h2
+
+/-- after any history without empty levels - operations on topics beginning
+with '$' included - the trie refines the abstract store -/
+theorem run_inv_any (ops : List Op) (hg : ∀ op ∈ ops, noEmptyLevel (opTopic op) = true) :
+    Inv (mrun ops).sroot (srun ops).subs :=
+  (run_inv_any_aux ops _ _ hg
+    ⟨WF_empty, by simp [MemTopics.new, abs_empty, absS, Mqtt.Spec.TopicStore.empty],
+      by simp [Mqtt.Spec.TopicStore.empty]⟩ (by simp [Mqtt.Spec.TopicStore.empty])).1
+
 /-! ### the query -/
 
 /-- the specification's answer to `subscribers t q` -/
@@ -314,7 +425,8 @@ theorem subscribers_refines (mt : MemTopics) (subs : List Sub) (t : List UInt8) 
   have hvq : validQos q = true := by rw [validQos_iff]; simpa using hq
   obtain ⟨r, hr, hp⟩ := smatch_char mt.sroot (split t) q h.wf
   refine ⟨r, ?_, ?_⟩
-  · simp only [MemTopics.subscribers, hvq, Bool.not_true, Bool.false_eq_true, ↓reduceIte, SNode.smatch]
+  · rw [subscribers_of_not_sys _ _ _ (good_checkSys t hg)]
+    simp only [hvq, Bool.not_true, Bool.false_eq_true, ↓reduceIte, SNode.smatch]
     rw [← e1, ← e2] at hr
     exact hr
   · refine hp.trans ?_
@@ -328,7 +440,8 @@ theorem subscribers_refines (mt : MemTopics) (subs : List Sub) (t : List UInt8) 
 
 theorem subscribe_outcome (mt : MemTopics) (f : List UInt8) (q s : Nat) (hg : good f = true) :
     (mt.subscribe 2 f q s).2 = if q ≤ 2 ∧ validFilter f = true then some q else none := by
-  simp only [MemTopics.subscribe, validQos_iff, SNode.sinsert]
+  rw [subscribe_of_not_sys _ _ _ _ _ (good_checkSys f hg)]
+  simp only [validQos_iff, SNode.sinsert]
   by_cases hq : q ≤ 2
   · have hq' : ¬ q > 2 := by omega
     simp only [hq, decide_true, Bool.not_true, Bool.false_eq_true, ↓reduceIte, hq', true_and]
@@ -340,7 +453,8 @@ theorem subscribe_outcome (mt : MemTopics) (f : List UInt8) (q s : Nat) (hg : go
 theorem unsubscribe_outcome (mt : MemTopics) (subs : List Sub) (f : List UInt8) (s : Nat)
     (h : Inv mt.sroot subs) (hg : good f = true) :
     (mt.unsubscribe f (some s)).2 = subs.any (fun e => e.sub == s && e.filter == f) := by
-  simp only [MemTopics.unsubscribe, SNode.sremove]
+  rw [unsubscribe_of_not_sys _ _ _ (good_checkSys f hg)]
+  simp only [SNode.sremove]
   cases hv : validFilter f with
   | false =>
     rw [levels_invalid f hg hv, sremoveL_false_snd]
